@@ -1,6 +1,7 @@
 (* Proofs/PathCacheRefute.v — the faithful model of the pinned code violates
    C16: closed witnesses (symbolic instance, vm_compute), one per defect class,
-   each a history of <= 3 events; and the segment-level statements. *)
+   each a history of <= 3 events, with the flags at fx_pinned; next to each, the
+   same history under the corresponding repair flag, where the answers agree. *)
 From Coq Require Import ZArith QArith Qcanon List Bool.
 From SVP Require Import Base.Num Model.PathCache Model.PathCacheExec Proofs.PathCache.
 Import ListNotations.
@@ -15,118 +16,172 @@ Definition loose : Tol := (qc 1 100, 5%Z).                  (* error = 1e-2, min
 Definition deep : Tol := (qc 1 1000000000000, 9%Z).         (* error = 1e-12, min_depth = 9 *)
 Definition z9 : P := (9, 9)%Z.
 
-(* after history evs from Path( *l ), query q is answered differently from a
+(* single-repair variants *)
+Definition fx_s : fixes := mkFx true false false false false false false.   (* setters *)
+Definition fx_c : fixes := mkFx false true false false false false false.   (* _calc_lengths *)
+Definition fx_q : fixes := mkFx false false true false false false false.   (* cubic reuse test *)
+Definition fx_a : fixes := mkFx false false false true false false false.   (* arc cache key *)
+Definition fx_h : fixes := mkFx false false false false true false false.   (* __hash__ *)
+Definition fx_l : fixes := mkFx false false false false false true false.   (* slice assignment *)
+Definition fx_r : fixes := mkFx false false false false false false true.   (* reversed() *)
+
+(* after history evs from the Path of the segments l, query q is answered differently from a
    newly built Path of fresh segments with the current control data *)
-Definition differs (l : list Seg) (evs : list Ev) (q : Q) : Prop :=
-  ask (run (fresh l) evs) q <> ask (fresh_of (run (fresh l) evs)) q.
+Definition differs (fx : fixes) (l : list Seg) (evs : list Ev) (q : Q) : Prop :=
+  ask fx (run fx (fresh l) evs) q <> ask fx (fresh_of (run fx (fresh l) evs)) q.
+Definition agrees (fx : fixes) (l : list Seg) (evs : list Ev) (q : Q) : Prop :=
+  ask fx (run fx (fresh l) evs) q = ask fx (fresh_of (run fx (fresh l) evs)) q.
 (* ... and differently from a newly built Path of the same segment objects *)
-Definition differs_same (l : list Seg) (evs : list Ev) (q : Q) : Prop :=
-  ask (run (fresh l) evs) q <> ask (fresh_same (run (fresh l) evs)) q.
-Definition agrees_same (l : list Seg) (evs : list Ev) (q : Q) : Prop :=
-  ask (run (fresh l) evs) q = ask (fresh_same (run (fresh l) evs)) q.
+Definition differs_same (fx : fixes) (l : list Seg) (evs : list Ev) (q : Q) : Prop :=
+  ask fx (run fx (fresh l) evs) q <> ask fx (fresh_same (run fx (fresh l) evs)) q.
+Definition agrees_same (fx : fixes) (l : list Seg) (evs : list Ev) (q : Q) : Prop :=
+  ask fx (run fx (fresh l) evs) q = ask fx (fresh_same (run fx (fresh l) evs)) q.
 
 Ltac refute := unfold differs, differs_same; vm_compute; let HH := fresh "HH" in intro HH; discriminate HH.
+Ltac confirm := unfold agrees, agrees_same; vm_compute; reflexivity.
 
 (* (a) the start / end setters keep _length / _lengths *)
 Lemma start_setter_stale_length :
-  differs_same [L1; C1] [EQ (QLength t_default); EOp (SetStart z9)] (QLength t_default).
+  differs_same fx_pinned [L1; C1] [EQ (QLength t_default); EOp (SetStart z9)] (QLength t_default).
 Proof. refute. Qed.
 Lemma end_setter_stale_length :
-  differs_same [L1; C1] [EQ (QLength t_default); EOp (SetEnd z9)] (QLength t_default).
+  differs_same fx_pinned [L1; C1] [EQ (QLength t_default); EOp (SetEnd z9)] (QLength t_default).
 Proof. refute. Qed.
 (* what is returned is the length of the OLD control data *)
 Lemma start_setter_returns_old :
-  ask (run (fresh [L1]) [EQ (QLength t_default); EOp (SetStart z9)]) (QLength t_default)
+  ask fx_pinned (run fx_pinned (fresh [L1]) [EQ (QLength t_default); EOp (SetStart z9)]) (QLength t_default)
   = VNum (SAdd SZero (SLen (sd L1) t_default)).
 Proof. vm_compute. reflexivity. Qed.
+Lemma setters_repaired :
+  agrees fx_s [L1; C1] [EQ (QLength t_default); EOp (SetStart z9)] (QLength t_default)
+  /\ agrees fx_s [L1; C1] [EQ (QLength t_default); EOp (SetEnd z9)] (QLength t_default).
+Proof. split; confirm. Qed.
 
 (* (b) _calc_lengths returns whatever is cached, for whatever tolerance *)
 Lemma calc_lengths_ignores_tolerance :
-  differs [L1; C1] [EQ (QLength loose)] (QLength t_default).
+  differs fx_pinned [L1; C1] [EQ (QLength loose)] (QLength t_default).
 Proof. refute. Qed.
 Lemma calc_lengths_ignores_tolerance_tight_first :
-  differs_same [L1; C1] [EQ (QLength t_default)] (QLength loose).
+  differs_same fx_pinned [L1; C1] [EQ (QLength t_default)] (QLength loose).
 Proof. refute. Qed.
+(* repaired _calc_lengths: the path recomputes; what a cubic then answers is the cubic's business *)
+Lemma calc_lengths_repaired :
+  agrees_same fx_c [L1; C1] [EQ (QLength t_default)] (QLength loose)
+  /\ agrees fx_c [L1; Q1] [EQ (QLength loose)] (QLength t_default).
+Proof. split; confirm. Qed.
 
 (* (c) CubicBezier: a value computed with a loose error is reused for a tighter
    request (the `>=` is the wrong way round); visible through a Path once the
    path-level cache has been reset by any mutation.  A Path of the same segment
    objects gives the same stale answer: the defect sits in the segment. *)
 Lemma cubic_cache_error_test_inverted_seg :
-  snd (seg_length (fst (seg_length C1 loose)) t_default) = SLen (sd C1) loose.
+  snd (seg_length fx_pinned (fst (seg_length fx_pinned C1 loose)) t_default) = SLen (sd C1) loose.
 Proof. vm_compute. reflexivity. Qed.
 Lemma cubic_cache_error_test_inverted :
-  differs [C1] [EQ (QLength loose); EOp (Append L1)] (QLength t_default).
+  differs fx_pinned [C1] [EQ (QLength loose); EOp (Append L1)] (QLength t_default).
 Proof. refute. Qed.
 Lemma cubic_cache_error_test_inverted_same :
-  agrees_same [C1] [EQ (QLength loose); EOp (Append L1)] (QLength t_default).
-Proof. vm_compute. reflexivity. Qed.
-(* a deeper min_depth is reused as well: not what a fresh segment answers *)
+  agrees_same fx_pinned [C1] [EQ (QLength loose); EOp (Append L1)] (QLength t_default).
+Proof. confirm. Qed.
+Lemma cubic_repaired :
+  snd (seg_length fx_q (fst (seg_length fx_q C1 loose)) t_default) = SLen (sd C1) t_default
+  /\ agrees fx_q [C1] [EQ (QLength loose); EOp (Append L1)] (QLength t_default).
+Proof. split; [vm_compute; reflexivity|confirm]. Qed.
+(* a deeper min_depth is reused as well: not what a fresh segment answers.  The
+   repaired test keeps this, and also reuses a value computed with a tighter
+   error: a MORE accurate value than asked for (left as a finding) *)
 Lemma cubic_cache_deeper_min_depth_reused :
-  snd (seg_length (fst (seg_length C1 deep)) t_default) = SLen (sd C1) deep.
+  snd (seg_length fx_pinned (fst (seg_length fx_pinned C1 deep)) t_default) = SLen (sd C1) deep.
 Proof. vm_compute. reflexivity. Qed.
+Lemma cubic_repaired_reuses_stricter :
+  snd (seg_length fx_q (fst (seg_length fx_q C1 deep)) t_default) = SLen (sd C1) deep
+  /\ snd (seg_length fx_q (fst (seg_length fx_q C1 t_default)) loose) = SLen (sd C1) t_default.
+Proof. vm_compute. split; reflexivity. Qed.
 (* the tight-then-loose direction recomputes, as a fresh segment would *)
 Lemma cubic_tight_then_loose_recomputes :
-  snd (seg_length (fst (seg_length C1 t_default)) loose) = SLen (sd C1) loose.
+  snd (seg_length fx_pinned (fst (seg_length fx_pinned C1 t_default)) loose) = SLen (sd C1) loose.
 Proof. vm_compute. reflexivity. Qed.
 
 (* Arc: the cache is keyed by hash(self) alone *)
 Lemma arc_cache_ignores_tolerance_seg :
-  snd (seg_length (fst (seg_length A1 loose)) t_default) = SLen (sd A1) loose
-  /\ snd (seg_length (fst (seg_length A1 t_default)) loose) = SLen (sd A1) t_default.
+  snd (seg_length fx_pinned (fst (seg_length fx_pinned A1 loose)) t_default) = SLen (sd A1) loose
+  /\ snd (seg_length fx_pinned (fst (seg_length fx_pinned A1 t_default)) loose) = SLen (sd A1) t_default.
 Proof. vm_compute. split; reflexivity. Qed.
 Lemma arc_cache_ignores_tolerance :
-  differs [A1] [EQ (QLength loose); EOp (Append L1)] (QLength t_default).
+  differs fx_pinned [A1] [EQ (QLength loose); EOp (Append L1)] (QLength t_default).
 Proof. refute. Qed.
+Lemma arc_repaired :
+  (snd (seg_length fx_a (fst (seg_length fx_a A1 loose)) t_default) = SLen (sd A1) t_default
+   /\ snd (seg_length fx_a (fst (seg_length fx_a A1 t_default)) loose) = SLen (sd A1) loose)
+  /\ agrees fx_a [A1] [EQ (QLength loose); EOp (Append L1)] (QLength t_default).
+Proof. split; [vm_compute; split; reflexivity|confirm]. Qed.
 
 (* (d) `path[:] = []` : the list is emptied, _length reset, then IndexError;
    _start/_end keep describing segments that are gone *)
 Lemma slice_assign_empty_raises :
-  snd (step (fresh [L1; C1]) (SetSlice None None [])) = RErr IndexError
-  /\ segs (fst (step (fresh [L1; C1]) (SetSlice None None []))) = []
-  /\ differs [L1; C1] [EOp (SetSlice None None [])] QEnd.
+  snd (step fx_pinned (fresh [L1; C1]) (SetSlice None None [])) = RErr IndexError
+  /\ segs (fst (step fx_pinned (fresh [L1; C1]) (SetSlice None None []))) = []
+  /\ differs fx_pinned [L1; C1] [EOp (SetSlice None None [])] QEnd.
 Proof. split; [|split]; [vm_compute; reflexivity|vm_compute; reflexivity|refute]. Qed.
+Lemma slice_assign_repaired :
+  snd (step fx_l (fresh [L1; C1]) (SetSlice None None [])) = ROk
+  /\ agrees fx_l [L1; C1] [EOp (SetSlice None None [])] QEnd.
+Proof. split; [vm_compute; reflexivity|confirm]. Qed.
 (* the same statement written `del path[:]` is fine *)
 Lemma del_slice_all_ok :
-  snd (step (fresh [L1; C1]) (DelSlice None None)) = ROk
-  /\ ask (run (fresh [L1; C1]) [EOp (DelSlice None None)]) QEnd = VPt None.
+  snd (step fx_pinned (fresh [L1; C1]) (DelSlice None None)) = ROk
+  /\ ask fx_pinned (run fx_pinned (fresh [L1; C1]) [EOp (DelSlice None None)]) QEnd = VPt None.
 Proof. vm_compute. split; reflexivity. Qed.
 
-(* a setter applied to an empty path leaves a start that a fresh empty Path has not *)
-Lemma setter_on_empty_path : differs [] [EOp (SetStart z9)] QStart.
-Proof. refute. Qed.
+(* a setter applied to an empty path leaves a start that a fresh empty Path has
+   not (not repaired: true of every variant) *)
+Lemma setter_on_empty_path : differs fx_pinned [] [EOp (SetStart z9)] QStart /\ differs fx_all [] [EOp (SetStart z9)] QStart.
+Proof. split; refute. Qed.
 
 (* (e) Path.__eq__ ignores _closed, Path.__hash__ includes it:
    Path(Line(0,1+1j), Line(1+1j,0)) == parse_path('M0,0 L1,1 Z') *)
 Lemma path_eq_hash_closed :
   let a := fresh [L1; L2] in
   let b := fresh_closed [L1; L2] true in
-  ask a (QEq (sds b)) = VBool true /\ ask a QHash <> ask b QHash.
+  ask fx_pinned a (QEq (sds b)) = VBool true /\ ask fx_pinned a QHash <> ask fx_pinned b QHash.
 Proof. simpl. split; [vm_compute; reflexivity|vm_compute; intro H; discriminate H]. Qed.
+Lemma path_eq_hash_repaired_witness :
+  ask fx_h (fresh [L1; L2]) QHash = ask fx_h (fresh_closed [L1; L2] true) QHash.
+Proof. vm_compute. reflexivity. Qed.
 
-(* reversed(): the copy starts with the original's value under its own key *)
-Definition reversed : Seg -> Seg * Seg := seg_reversed rev_data sym_truthy.
+(* reversed(): the copy starts with the original's value under its own key
+   (kept by the repair: the ulp-level finding) *)
+Definition reversed (fx : fixes) : Seg -> Seg * Seg := seg_reversed fx P_eqb Pay_eqb rev_data sym_truthy.
 Lemma reversed_copy_inherits_cache :
-  let g := fst (seg_length C1 t_default) in
-  snd (seg_length (snd (reversed g)) t_default) = SLen (sd C1) t_default
-  /\ snd (seg_length (clear_cache (snd (reversed g))) t_default) = SLen (rev_data (sd C1)) t_default.
+  let g := fst (seg_length fx_pinned C1 t_default) in
+  snd (seg_length fx_pinned (snd (reversed fx_pinned g)) t_default) = SLen (sd C1) t_default
+  /\ snd (seg_length fx_pinned (clear_cache (snd (reversed fx_pinned g))) t_default) = SLen (rev_data (sd C1)) t_default.
 Proof. vm_compute. split; reflexivity. Qed.
+Lemma reversed_copy_inherits_cache_still :
+  let g := fst (seg_length fx_r C1 t_default) in
+  snd (seg_length fx_r (snd (reversed fx_r g)) t_default) = SLen (sd C1) t_default.
+Proof. vm_compute. reflexivity. Qed.
 (* ... whereas the original, whose shared entry has been re-keyed, recomputes *)
 Lemma reversed_original_recomputes :
-  let g := fst (seg_length C1 t_default) in
-  snd (seg_length (fst (reversed g)) t_default) = SLen (sd C1) t_default
-  /\ option_map (@ckey _ _ _ _) (scache (fst (reversed g))) = Some (rev_data (sd C1)).
+  let g := fst (seg_length fx_pinned C1 t_default) in
+  snd (seg_length fx_pinned (fst (reversed fx_pinned g)) t_default) = SLen (sd C1) t_default
+  /\ option_map (@ckey _ _ _ _) (scache (fst (reversed fx_pinned g))) = Some (rev_data (sd C1)).
 Proof. vm_compute. split; reflexivity. Qed.
 
 (* c.length(); c.start = z; r = c.reversed(); r.length(): the shared entry is
    re-keyed to the CURRENT reversed control points while still holding the
    length of the OLD ones, so the copy answers with a genuinely stale value *)
 Lemma reversed_rekeys_stale_length :
-  let g := with_start (fst (seg_length C1 t_default)) z9 in
-  snd (seg_length (snd (reversed g)) t_default) = SLen (sd C1) t_default
-  /\ snd (seg_length (clear_cache (snd (reversed g))) t_default) = SLen (rev_data (sd g)) t_default
+  let g := with_start (fst (seg_length fx_pinned C1 t_default)) z9 in
+  snd (seg_length fx_pinned (snd (reversed fx_pinned g)) t_default) = SLen (sd C1) t_default
+  /\ snd (seg_length fx_pinned (clear_cache (snd (reversed fx_pinned g))) t_default) = SLen (rev_data (sd g)) t_default
   /\ sd g <> sd C1.
 Proof. vm_compute. split; [reflexivity|split; [reflexivity|intro HH; discriminate HH]]. Qed.
+Lemma reversed_repaired :
+  let g := with_start (fst (seg_length fx_r C1 t_default)) z9 in
+  snd (seg_length fx_r (snd (reversed fx_r g)) t_default) = SLen (rev_data (sd g)) t_default
+  /\ fst (reversed fx_r g) = g.
+Proof. vm_compute. split; reflexivity. Qed.
 
 (* non-vacuity of the positive theorems: a history with every kind of
    operation that is safe, on which the invariant therefore holds *)
@@ -136,17 +191,34 @@ Definition demo : list Ev :=
     EOp (SetStart z9); EQ (QLength t_default); EOp (Extend [L1; C1]); EOp (SetSlice (Some 1%Z) None [Q1]);
     EOp (DelSlice (Some 0%Z) (Some 1%Z)); EQ QEnd ].
 Lemma demo_safe :
-  safe_hist P_eqb P_falsy Pay_eqb tol_reuse t_default SLen SZero SOne SAdd SSub SDiv sym_eqb sym_geb
-            tol_eqb t_default (fresh [L1; C1]) demo = true.
+  safe_hist fx_pinned P_eqb P_falsy Pay_eqb (tol_reuse fx_pinned) tol_eqb t_default SLen SZero SOne SAdd SSub SDiv
+            sym_eqb sym_geb (Tb_one tol_eqb t_default) (fresh [L1; C1]) demo = true.
 Proof. vm_compute. reflexivity. Qed.
 Lemma demo_trace_nontrivial :
-  length (segs (run (fresh [L1; C1]) demo)) = 1%nat
-  /\ ask (run (fresh [L1; C1]) demo) (QLength t_default)
-     = ask (fresh_of (run (fresh [L1; C1]) demo)) (QLength t_default).
+  length (segs (run fx_pinned (fresh [L1; C1]) demo)) = 1%nat
+  /\ ask fx_pinned (run fx_pinned (fresh [L1; C1]) demo) (QLength t_default)
+     = ask fx_pinned (fresh_of (run fx_pinned (fresh [L1; C1]) demo)) (QLength t_default).
 Proof. vm_compute. split; reflexivity. Qed.
+(* with every repair on: setters while the length is cached, `path[:] = []`,
+   three different tolerances — all allowed *)
+Definition demo_all : list Ev :=
+  [ EQ (QLength t_default); EOp (SetStart z9); EQ (QLength loose); EOp (SetEnd z9); EQ (QT2t (SLit (qc 1 3)));
+    EOp (SetSlice None None []); EQ QEnd; EOp (Extend [L1; A1]); EQ (QLength deep); EOp (SetStart z9);
+    EQ (QLength loose) ].
+Lemma demo_all_safe :
+  safe_hist_repaired fx_all P_eqb P_falsy Pay_eqb (tol_reuse fx_all) tol_eqb t_default SLen SZero SOne SAdd SSub SDiv
+            sym_eqb sym_geb Tb_any (fresh [L1; Q1]) demo_all = true.
+Proof. vm_compute. reflexivity. Qed.
+(* the same with a cubic in the path and an exact reuse test (cached == requested),
+   for which the reuse hypothesis of the mixed-tolerance theorem holds *)
+Definition demo_all_c : list Ev := demo_all ++ [EOp (Append C1); EQ (QLength loose); EQ (QLength deep)].
+Lemma demo_all_c_safe :
+  safe_hist_repaired fx_all P_eqb P_falsy Pay_eqb tol_eqb tol_eqb t_default SLen SZero SOne SAdd SSub SDiv
+            sym_eqb sym_geb Tb_any (fresh [L1; C1]) demo_all_c = true.
+Proof. vm_compute. reflexivity. Qed.
 
 (* MutableSequence.reverse, modelled as the swap loop, reverses *)
 Lemma reverse_is_rev :
-  map sd (segs (fst (step (fresh [L1; C1; A1; Q1; L2]) Reverse))) = rev (map sd [L1; C1; A1; Q1; L2])
-  /\ map sd (segs (fst (step (fresh [L1; C1; A1; Q1]) Reverse))) = rev (map sd [L1; C1; A1; Q1]).
+  map sd (segs (fst (step fx_pinned (fresh [L1; C1; A1; Q1; L2]) Reverse))) = rev (map sd [L1; C1; A1; Q1; L2])
+  /\ map sd (segs (fst (step fx_pinned (fresh [L1; C1; A1; Q1]) Reverse))) = rev (map sd [L1; C1; A1; Q1]).
 Proof. vm_compute. split; reflexivity. Qed.
